@@ -33,7 +33,7 @@ def main():
             results = {}
             for c in checks:
                 t0 = time.time()
-                r = sh(f"cd /verif && ./check {c} --tier {tier}")
+                r = sh(f"cd /verif && VERIF_EVIDENCE_DIR=/tmp/verif-scratch-evidence ./check {c} --tier {tier}")
                 viol = [l for l in r.stdout.splitlines() if l.startswith("VIOLATION")]
                 clauses = [l.strip().split()[0] for l in r.stdout.splitlines() if l.strip().startswith("clause=")]
                 results[c] = {"exit": r.returncode, "violation_lines": len(viol), "clauses": clauses, "wall_s": round(time.time() - t0, 1),
